@@ -1,5 +1,6 @@
 import KyberModel.Lib.Ed25519
 import KyberModel.Lib.PrimeOrder
+import KyberModel.Lib.WeierstrassCurves
 /-
 C01 — group operations obey abelian-group and scalar-action laws.
 Property theorems, stated on the executable model (naturals mod p), for every valid operand
@@ -121,3 +122,54 @@ example : Valid base ∧ base ≠ Edwards.zero ∧ smul L base = Edwards.zero :=
   ⟨valid_base, base_ne_zero, smul_L_base⟩
 
 end Kyber.Ed25519.Laws
+
+/-!
+Section `Weierstrass`: P-256, BN256 G1, BN254 G1 and BLS12-381 G1. The executable chord-and-tangent
+model is Mathlib's elliptic-curve group over `ZMod p` (Lib/Weierstrass.lean, Lib/WeierstrassModel.lean),
+so every identity holds for ALL valid points and ALL scalars. Stated once for any curve record with
+prime `p > 3` and non-zero discriminant, then instantiated.
+-/
+namespace Kyber.Weierstrass.Laws
+open Kyber Kyber.Weierstrass Kyber.WModel
+
+variable {c : Curve} [Fact c.p.Prime] (hg : Good c)
+include hg
+
+/-- All the identities of C01 on one curve. -/
+theorem laws {P Q R : Pt} (hP : Valid c P) (hQ : Valid c Q) (hR : Valid c R) (a b : Nat) :
+    add c (add c P Q) R = add c P (add c Q R)
+    ∧ add c P Q = add c Q P
+    ∧ add c P none = P ∧ add c none P = P
+    ∧ add c P (neg c P) = none
+    ∧ smul c (a + b) P = add c (smul c a P) (smul c b P)
+    ∧ smul c a (smul c b P) = smul c (a * b) P
+    ∧ smul c a (add c P Q) = add c (smul c a P) (smul c a Q)
+    ∧ smul c 0 P = none ∧ smul c 1 P = P
+    ∧ Valid c (add c P Q) ∧ Valid c (neg c P) ∧ Valid c (smul c a P) :=
+  ⟨add_assoc' hg hP hQ hR, add_comm' hg hP hQ, add_zero' P, zero_add' P, add_neg' hg hP,
+   smul_add' hg hP a b, smul_smul' hg hP a b, smul_add_pt' hg hP hQ a, zero_smul' hg hP, one_smul' hg hP,
+   valid_add hg hP hQ, valid_neg hg hP, valid_smul hg hP a⟩
+
+/-- On points killed by `q` (every multiple of a base point of order `q`): scalars act modulo `q` and
+    `(q-1) P = -P`. -/
+theorem laws_mod {P : Pt} (hP : Valid c P) (q : Nat) (hq0 : 0 < q) (hq : smul c q P = none) (a : Nat) :
+    smul c (a % q) P = smul c a P ∧ smul c (q - 1) P = neg c P :=
+  ⟨smul_mod' hg hP q hq a, pred_smul' hg hP q hq0 hq⟩
+
+end Kyber.Weierstrass.Laws
+
+namespace Kyber.Weierstrass.Instances
+open Kyber Kyber.Weierstrass Kyber.WModel Kyber.WCurves
+
+/-- Non-vacuity and the order facts: each base point is valid and is killed by the advertised prime order. -/
+theorem p256 : Good P256.curve ∧ Valid P256.curve P256.base ∧ smul P256.curve P256.n P256.base = none
+    ∧ Nat.Prime P256.n := ⟨p256_good, p256_base_valid, WFacts.p256_order, P256.n_prime⟩
+theorem bn256 : Good BN256.curve ∧ Valid BN256.curve BN256.base ∧ smul BN256.curve BN256.n BN256.base = none
+    ∧ Nat.Prime BN256.n := ⟨bn256_good, bn256_base_valid, WFacts.bn256_order, BN256.n_prime⟩
+theorem bn254 : Good BN254.curve ∧ Valid BN254.curve BN254.base ∧ smul BN254.curve BN254.n BN254.base = none
+    ∧ Nat.Prime BN254.n := ⟨bn254_good, bn254_base_valid, WFacts.bn254_order, BN254.n_prime⟩
+theorem bls12381 : Good BLS12381.curve ∧ Valid BLS12381.curve BLS12381.base
+    ∧ smul BLS12381.curve BLS12381.r BLS12381.base = none ∧ Nat.Prime BLS12381.r :=
+  ⟨bls_good, bls_base_valid, WFacts.bls_order, BLS12381.r_prime⟩
+
+end Kyber.Weierstrass.Instances
